@@ -303,6 +303,12 @@ def make_storage(kind, tmpdir, tag):
         if k == 'file':
             return FileStorage(os.path.join(tmpdir, '%s-%s.fs' % (tag, name)), create=True)
         return MappingStorage(name)
+    if kind.startswith('hex:'):
+        # record-transforming wrapper (ZODB.tests.hexstorage): the resolver's output must be stored in
+        # the wrapper's format (`_crs_transform_record_data`)
+        from ZODB.tests.hexstorage import HexStorage
+        inner, base = make_storage(kind[4:], tmpdir, tag)
+        return HexStorage(inner), base
     parts = kind.split(':')
     if parts[0] != 'demo':
         return simple(parts[0], 'main'), None
@@ -388,7 +394,11 @@ class StorageRunner:
                 txn = TransactionMetaData()
                 cid, args, tree = parse_rec(tk[3])
                 self.base.tpc_begin(txn, p64(int(tk[1])))
-                self.base.store(p64(int(tk[2])), p64(0), make_pickle(cid, args, tree), '', txn)
+                data = make_pickle(cid, args, tree)
+                if self.kind.startswith('hex:'):
+                    from binascii import hexlify
+                    data = b'.h' + hexlify(data)
+                self.base.store(p64(int(tk[2])), p64(0), data, '', txn)
                 self.base.tpc_vote(txn)
                 self.base.tpc_finish(txn)
                 r = 'ok'
